@@ -114,6 +114,30 @@ def run(chk):
         w = qobjgen.judge(qp, ql, "ent")
         if w and qbad is None:
             qbad = (qp, ql, w)
+    # releasing an object's qubits resets them there and then: once every object is gone the register is back in |0...0>, whether or
+    # not the indices are ever reused
+    import evallib as _ev4
+    rel = []
+    for _ in range(200 if chk.thorough else 20):
+        c = chk.rng.choice(["QB", "QD", "QE"])
+        body = []
+        for f in qobjgen.FIELDS[c]:
+            g = chk.rng.choice(["x(o.%s);" % f, "h(o.%s);" % f, "", "x(o.%s); h(o.%s);" % (f, f)])
+            body.append(g)
+        if chk.rng.random() < 0.5:
+            body.append("cx(o.%s, o.%s);" % tuple(chk.rng.sample(qobjgen.FIELDS[c], 2)))
+        end = chk.rng.choice(["destroy o;", ""])
+        d = chk.rng.choice([0.1, 0.9])
+        rel.append((qobjgen.CLASSES + "function main() -> void { { %s o = new %s(); %s %s } echo(1); }" % (c, c, " ".join(body), end), [d] * 40))
+    _lr, rimpl, _mr, _ir = _ev4.run_programs(rel, with_model=False)
+    for (src, ds), a in zip(rel, rimpl):
+        chk.count(("release-resets", src) if a.startswith("ok ") else None)
+        st = _ev4.split_result(a).get("state") if a.startswith("ok ") else None
+        ok = st is not None and abs(abs(st[1][0]) - 1.0) < 1e-9
+        if a.startswith("ok ") and not ok and qbad is None and not bad:
+            chk.violation("after every object is gone the register is not back in |0...0> (amplitude of |0...0> is %s): released qubits were not reset\n%s"
+                          % (abs(st[1][0]) if st else "?", src[-500:]), {"source": src, "draw": ds[0], "kind": "qobj", "clause": "release"})
+            break
     chk.extra["evaluator_level_programs"] = len(qprogs)
     if qbad:
         qp, ql, w = qbad
